@@ -6,6 +6,7 @@ use std::process::exit;
 mod c16;
 mod rx;
 mod c09;
+mod rt;
 
 fn main() {
     let args: Vec<String> = std::env::args().collect();
@@ -17,6 +18,7 @@ fn main() {
         "c16" => c16::main(&args[2..]),
         "rx" => rx::main(&args[2..]),
         "c09" => c09::main(&args[2..]),
+        "rt" => rt::main(&args[2..]),
         other => {
             eprintln!("unknown property {other}");
             2
